@@ -57,6 +57,7 @@ Section WithMsg.
 
   Definition read_name (nk : name_kind) (c : cursor) : res (list byte * cursor) :=
     let* (dn, mp) := read_name_loop nk (name_fuel c) (mkL c 0 0) [] in
+    if name_wire_too_long (lenN dn) then Err (DomainNameTooLong (name_wire_len_err (lenN dn))) else
     let dn' := match dn with [] => [dot] | _ => dn end in
     Ok (dn', c_set_pos c mp).
 
